@@ -13,6 +13,7 @@
 import MocVerif.Model.STCodec
 import MocVerif.Model.STText
 import MocVerif.Props.C07
+import MocVerif.Lemmas.TextST
 
 namespace Moc.STCodec.C11
 open Moc Moc.STCodec
@@ -158,6 +159,129 @@ theorem st_ascii_roundtrip (w d1 d2 : Nat) (elems : List STText.Elem)
     have e1 : e.1.isEmpty = false := by cases h : e.1 <;> simp_all
     have e2 : e.2.isEmpty = false := by cases h : e.2 <;> simp_all
     simp [e1, e2]
+
+/-! ### Character level -/
+
+/-- The characters written for one element. -/
+def pieceOf (w d1 d2 : Nat) (e : STText.Elem) : List Char :=
+  encodeChars d1 (itemsOf Params.time w d1 e.1) ++ 's' :: encodeChars d2 (itemsOf Params.hpx w d2 e.2)
+
+/-- The depth-only element (without the final newline). -/
+def lastPiece (d1 d2 : Nat) : List Char := (showNat d1 ++ '/' :: ' ' :: 's' :: showNat d2) ++ ['/']
+
+theorem encodeCharsST_eq (w d1 d2 : Nat) (elems : List STText.Elem) :
+    encodeCharsST w d1 d2 elems
+      = joinSep 't' (elems.map (pieceOf w d1 d2) ++ [lastPiece d1 d2]) ++ ['\n'] := by
+  rw [joinSep_append_single]
+  unfold encodeCharsST joinSep pieceOf lastPiece
+  simp [List.map_map, Function.comp_def]
+
+/-- What the lexer needs of an element: its numbers fit the index type. -/
+def ElemFits (w d1 d2 : Nat) (e : STText.Elem) : Prop :=
+  (∀ it ∈ itemsOf Params.time w d1 e.1, it.s < it.e ∧ it.e < 2 ^ w) ∧
+  (∀ it ∈ itemsOf Params.hpx w d2 e.2, it.s < it.e ∧ it.e < 2 ^ w)
+
+theorem go_pieces (w d1 d2 : Nat) (hd1 : d1 < 2 ^ w) (hd2 : d2 < 2 ^ w) :
+    ∀ (elems : List STText.Elem), (∀ e ∈ elems, ElemFits w d1 d2 e) →
+    decodeText.go w (elems.map (pieceOf w d1 d2) ++ [lastPiece d1 d2])
+      = decodeDoc w (encodeDoc w d1 d2 elems) := by
+  intro elems
+  induction elems with
+  | nil =>
+    intro _
+    have hs : splitOnce 's' (lastPiece d1 d2) = some (showNat d1 ++ ['/', ' '], showNat d2 ++ ['/']) := by
+      have := splitOnce_append 's' (showNat d1 ++ ['/', ' ']) (showNat d2 ++ ['/']) (by
+        intro c hc
+        simp only [List.mem_append, List.mem_cons, List.not_mem_nil, or_false] at hc
+        rcases hc with h | rfl | rfl
+        · exact (showNat_plain d1 c h).2
+        · decide
+        · decide)
+      simpa [lastPiece] using this
+    have a1 := decodeAscii_depthOnly Params.time w d1 hd1 [' '] (fun c h => by
+      simp only [List.mem_singleton] at h; subst h; decide)
+    have a2 := decodeAscii_depthOnly Params.hpx w d2 hd2 [] (fun _ h => by cases h)
+    simp only [List.map_nil, List.nil_append, decodeText.go, hs, encodeDoc, decodeDoc]
+    have e1 : showNat d1 ++ ['/', ' '] = showNat d1 ++ '/' :: [' '] := rfl
+    have e2 : showNat d2 ++ ['/'] = showNat d2 ++ '/' :: [] := rfl
+    rw [e1, e2, a1, a2]
+  | cons e t ih =>
+    intro hf
+    have hfe := hf e (by simp)
+    have hs : splitOnce 's' (pieceOf w d1 d2 e)
+        = some (encodeChars d1 (itemsOf Params.time w d1 e.1), encodeChars d2 (itemsOf Params.hpx w d2 e.2)) :=
+      splitOnce_append 's' _ _ (fun c hc => (encodeChars_plain _ _ c hc).2)
+    have a1 := Moc.Codec.C07.ascii_text_lex Params.time w d1 _ hd1 hfe.1
+    have a2 := Moc.Codec.C07.ascii_text_lex Params.hpx w d2 _ hd2 hfe.2
+    have iht := ih (fun x hx => hf x (by simp [hx]))
+    simp only [List.map_cons, List.cons_append, decodeText.go, hs, a1, a2, iht, encodeDoc, decodeDoc]
+
+/-- **The ST text reader inverts the ST text writer's layout, character by character**: trimming, the
+    split on the `t` prefixes, the split of every element on its `s` prefix and the two 1-D lexers,
+    applied to the characters written for any list of elements whose numbers fit the index type, give
+    exactly the token-level reader applied to the token-level document. -/
+theorem st_ascii_text_lex (w d1 d2 : Nat) (hd1 : d1 < 2 ^ w) (hd2 : d2 < 2 ^ w) (elems : List STText.Elem)
+    (hf : ∀ e ∈ elems, ElemFits w d1 d2 e) :
+    decodeText w (encodeCharsST w d1 d2 elems) = decodeDoc w (encodeDoc w d1 d2 elems) := by
+  have hlast : lastPiece d1 d2 = (showNat d1 ++ '/' :: ' ' :: 's' :: showNat d2) ++ ['/'] := rfl
+  unfold decodeText
+  rw [encodeCharsST_eq, hlast, trimSpaces_pieces, ← hlast]
+  have hsplit := splitOnChar_pieces 't' (elems.map (pieceOf w d1 d2) ++ [lastPiece d1 d2]) []
+    (fun _ h => by cases h) (by
+      intro q hq c hc
+      simp only [List.mem_append, List.mem_map, List.mem_singleton] at hq
+      rcases hq with ⟨e, _, rfl⟩ | rfl
+      · unfold pieceOf at hc
+        simp only [List.mem_append, List.mem_cons] at hc
+        rcases hc with h | rfl | h
+        · exact (encodeChars_plain _ _ c h).1
+        · decide
+        · exact (encodeChars_plain _ _ c h).1
+      · unfold lastPiece at hc
+        simp only [List.mem_append, List.mem_cons, List.not_mem_nil, or_false] at hc
+        rcases hc with (h | rfl | rfl | rfl | h) | rfl
+        · exact (showNat_plain d1 c h).1
+        · decide
+        · decide
+        · decide
+        · exact (showNat_plain d2 c h).1
+        · decide)
+  rw [List.nil_append] at hsplit
+  simp only [hsplit]
+  have hfilt : (([] : List Char) :: (elems.map (pieceOf w d1 d2) ++ [lastPiece d1 d2])).filter
+      (fun p => !p.isEmpty) = elems.map (pieceOf w d1 d2) ++ [lastPiece d1 d2] := by
+    rw [List.filter_cons_of_neg (by simp)]
+    apply List.filter_eq_self.2
+    intro p hp
+    simp only [List.mem_append, List.mem_map, List.mem_singleton] at hp
+    rcases hp with ⟨e, _, rfl⟩ | rfl
+    · simp [pieceOf]
+    · simp [lastPiece]
+  rw [hfilt]
+  exact go_pieces w d1 d2 hd1 hd2 elems hf
+
+/-- **ST ASCII round trip at the character level**: for every list of valid non-empty elements on an
+    index type whose cell numbers fit (`n_cells(d) < 2^w`, see `C07.fit_instances`), reading the
+    characters the writer emits returns exactly `(d1, d2, elements)`. -/
+theorem st_ascii_text_roundtrip (w d1 d2 : Nat) (elems : List STText.Elem)
+    (h1 : d1 ≤ Params.time.maxDepth w ∧ d1 ≤ 255) (h2 : d2 ≤ Params.hpx.maxDepth w ∧ d2 ≤ 255)
+    (hf1 : Params.time.nCells d1 < 2 ^ w ∧ d1 < 2 ^ w) (hf2 : Params.hpx.nCells d2 < 2 ^ w ∧ d2 < 2 ^ w)
+    (hv : ∀ e ∈ elems, Valid Params.time w d1 e.1 ∧ Valid Params.hpx w d2 e.2 ∧ e.1 ≠ [] ∧ e.2 ≠ []) :
+    decodeText w (encodeCharsST w d1 d2 elems) = .ok (d1, d2, elems) := by
+  have ht : Params.time.dim = 1 ∨ Params.time.dim = 2 := by decide
+  have hh : Params.hpx.dim = 1 ∨ Params.hpx.dim = 2 := by decide
+  rw [st_ascii_text_lex w d1 d2 hf1.2 hf2.2 elems (fun e he => by
+    obtain ⟨v1, v2, _, _⟩ := hv e he
+    have o1 := Moc.Codec.C07.itemsOf_ok Params.time ht w d1 h1.1 h1.2 e.1 v1
+    have o2 := Moc.Codec.C07.itemsOf_ok Params.hpx hh w d2 h2.1 h2.2 e.2 v2
+    refine ⟨fun it hit => ?_, fun it hit => ?_⟩
+    · have := o1 it hit
+      have hm := Moc.Codec.C07.nCells_mono Params.time this.2
+      exact ⟨this.1.2.2.1, by have := this.1.2.2.2; omega⟩
+    · have := o2 it hit
+      have hm := Moc.Codec.C07.nCells_mono Params.hpx this.2
+      exact ⟨this.1.2.2.1, by have := this.1.2.2.2; omega⟩)]
+  exact st_ascii_roundtrip w d1 d2 elems h1 h2 hv
 
 /-- **ST JSON round trip** (token level: the JSON document is the same sequence of `(t, s)` parts
     written with single cells only, followed by the depth-only object). -/
